@@ -118,7 +118,7 @@ def sign(t: Term, env: Optional[Dict[Term, str]] = None) -> str:
         return _mul(a, b)
     if tag == "select":
         return join(sign(t[2], env), sign(t[3], env))
-    if tag == "attr" and t[1] == ("ext", "math") and t[2] == "inf":
+    if t in (("ext", "math.inf"), ("ext", "numpy.inf")):
         return POS
     if tag == "pow" and t[2][0] == "c" and isinstance(t[2][1], int) and t[2][1] % 2 == 0:
         return NONNEG
@@ -197,9 +197,22 @@ class SignEval:
                 for v in vals[1:]:
                     s = join(s, self.ev(v))
                 return s
+            mod = self.fn.module
+            imp = mod.imports.get(e.id)
+            if imp and imp[0] != "module" and (imp[1], imp[2]) in (("math", "inf"), ("numpy", "inf")):
+                return POS                                   # from math import inf [as x]
+            if e.id in mod.assigns and not any(p.name == e.id for p in self.fn.params):
+                stores = [n for n in ast.walk(mod.tree) if isinstance(n, ast.Name) and n.id == e.id and isinstance(n.ctx, ast.Store)]
+                if len(stores) == 1:
+                    return self.ev(mod.assigns[e.id])        # a module-level constant bound once
             return TOP
         if isinstance(e, ast.Attribute):
-            if ast.unparse(e) in ("math.inf", "np.inf", "numpy.inf"):
+            txt = ast.unparse(e)
+            if isinstance(e.value, ast.Name):
+                imp = self.fn.module.imports.get(e.value.id)
+                if imp and imp[0] == "module":
+                    txt = imp[1] + "." + e.attr              # import math as m; m.inf
+            if txt in ("math.inf", "np.inf", "numpy.inf"):
                 return POS
             return TOP
         if isinstance(e, ast.Call):
